@@ -1,32 +1,29 @@
 /- REGENERATED from /repo on every run by /verif/harness/cmd/extract — do not edit. -/
 namespace Ibx.Gen.Pop3
 
-/-- keys of the `commands` map literal, in source order -/
+/-- keys of the package's command set (its one package-level map[string]bool literal), in source order -/
 def commandKeys : Option (List (List Nat)) := some [[81, 85, 73, 84], [83, 84, 65, 84], [76, 73, 83, 84], [82, 69, 84, 82], [68, 69, 76, 69], [78, 79, 79, 80], [82, 83, 69, 84], [84, 79, 80], [85, 73, 68, 76], [85, 83, 69, 82], [80, 65, 83, 83], [65, 80, 79, 80], [67, 65, 80, 65], [83, 84, 76, 83]]
 
 /-- their values as written -/
 def commandVals : List String := ["true", "true", "true", "true", "true", "true", "true", "true", "true", "true", "true", "true", "true", "true"]
 
-/-- case labels of `switch cmd` in authorizationHandler (source order) and whether it has a default clause -/
+/-- the states the command loop dispatches to a handler(cmd, args), in source order -/
+def dispatchStates : List String := ["AUTHORIZATION", "TRANSACTION"]
+
+/-- case labels of the switch on the command word in the AUTHORIZATION handler (source order) and whether it has a default clause -/
 def authCases : Option (List (List Nat) × Bool) := some ([[81, 85, 73, 84], [83, 84, 76, 83], [85, 83, 69, 82], [80, 65, 83, 83], [65, 80, 79, 80]], true)
 
-/-- case labels of `switch cmd` in transactionHandler (source order) and whether it has a default clause -/
+/-- case labels of the switch on the command word in the TRANSACTION handler (source order) and whether it has a default clause -/
 def transCases : Option (List (List Nat) × Bool) := some ([[83, 84, 65, 84], [76, 73, 83, 84], [85, 73, 68, 76], [68, 69, 76, 69], [82, 69, 84, 82], [84, 79, 80], [81, 85, 73, 84], [78, 79, 79, 80], [82, 83, 69, 84]], true)
 
-/-- `if` conditions mentioning cmd inside startSession, in source order -/
-def loopTests : List String := ["cmd == \"CAPA\"", "cmd == \"\"", "!commands[cmd]"]
+/-- `if` conditions on the command word ($cmd) inside the command loop's function, in source order -/
+def loopTests : List String := ["$cmd == \"CAPA\"", "$cmd == \"\"", "!commands[$cmd]"]
 
-/-- condition of the command loop -/
-def loopCond : String := "ssn.state != QUIT && ssn.sendError == nil"
+/-- condition of the command loop ($s = the session) -/
+def loopCond : String := "$s.state != QUIT && $s.sendError == nil"
 
-/-- call sites of processDeletes: (function, enclosing case of switch cmd) -/
-def processDeletesCalls : List (String × String) := [("transactionHandler", "QUIT")]
-
-/-- call sites of loadMailbox -/
-def loadMailboxCalls : List (String × String) := [("authorizationHandler", "PASS"), ("authorizationHandler", "APOP")]
-
-/-- every <x>.store.<Method>(…) call in the package: (function, method) -/
-def storeCalls : List (String × String) := [("loadMailbox", "GetMessages"), ("processDeletes", "RemoveMessage")]
+/-- (state, clause, Store method) for every method of storage.Store a clause can reach through the package's own functions; ("", "loop" | "elsewhere", m) for calls outside the handlers' tables -/
+def storeReach : List (String × String × String) := [("AUTHORIZATION", "PASS", "GetMessages"), ("AUTHORIZATION", "APOP", "GetMessages"), ("TRANSACTION", "QUIT", "RemoveMessage")]
 
 /-- distinct (base,bitSize) of the strconv.ParseInt calls -/
 def parseIntArgs : List String := ["10,32"]
